@@ -541,6 +541,10 @@ def run_family(ctx, pid, replay_cases=None):
         ctx.cov["driver_s"] = round(dt, 1)
     else:
         cases = rerun(ctx, tool, replay_cases, "replay")
+    lost = [c for c in cases if not c.get("final")]
+    if lost:
+        ctx.fail("correspondence", "the driver could not run %d generated case(s): %s" % (len(lost), (lost[0].get("note") or "")[:200]),
+                 inputs_of(lost[0]))
     cases = usable(cases)
     accepted = evaluate(ctx, pid, tool, cases, "cases")
     nontrivial = set()
